@@ -36,7 +36,119 @@ def replay(prop, scenario, params):
 def execute(prop, scenario, params, streams=None):
     if prop == "C05":
         return execute_c05(scenario, params, streams)
+    if prop == "C09":
+        return execute_c09(scenario, params, streams)
     return execute_generic(prop, scenario, params, streams)
+
+
+def execute_c09(scenario, params, streams=None):
+    """C09: (a) the last session applied in one apply() versus one
+    modification per apply(), in the engine's order: same module up to UUIDs
+    and temporary-label suffixes; (b) cache invariants after every engine
+    step and (c) live referents at assemble time (driver.check_caches /
+    check_assembled_referents, armed by prop == 'C09')."""
+    from . import build, canon, driver, gen, observe, oracles
+
+    stats = collections.Counter()
+    params = dict(params)
+    params["_isa"] = scenario["module"]["isa"]
+    params["_fmt"] = scenario["module"]["fmt"]
+    params["c09"] = True
+    sigma = scenario["sigma"]
+    meta = {"sigma": core.digest(sigma), "interleavings": []}
+    shape = lambda m, sd: gen.shape_ok(m, sd, params) and gen.ops_allowed(m, sd)
+
+    def play(n, sequential):
+        core.reseed(sigma["uuid_seed"], sigma["salt"])
+        world, model = build.build(scenario["module"])
+        obs = observe.Obs(world, model)
+        oracles.align_model(world, model, obs, "C09")
+        if not gen.module_shape_ok(model) or not gen.module_desc_ok(scenario["module"]):
+            raise core.Rejected("module violates the generator's shape preconditions")
+        reordered = False
+        steps = []
+        for si in range(n):
+            last = si == n - 1
+            gen_cb = None
+            if si < len(scenario["sessions"]):
+                sdesc = scenario["sessions"][si]
+            else:
+                sdesc = None
+                hist = streams.get(f"gen.session.{si}")
+
+                def gen_cb(m, hist=hist, si=si):
+                    return gen.gen_session(hist, m, params, si)
+
+            if last and sequential:
+                # engine order of the modifications of this session
+                spans, att = driver.real_view(world, model)
+                model.begin_session(spans, att)
+                order = []
+                for oi, op in enumerate(sdesc["ops"]):
+                    exp = driver.expand_op(model, op)
+                    key, off, length, _ = exp[0]
+                    sp = model.spans[key]
+                    order.append(((model.section_order.index(sp.sect), model.sections[sp.sect].index(sp.unit), sp.start), off, oi))
+                model.end_session()
+                order.sort()
+                for k, (_, _, oi) in enumerate(order):
+                    sub = {"ops": [sdesc["ops"][oi]], "reg_order": [0], "marker_ids": [oi]}
+                    sess = driver.run_session(world, model, sub, "C09", si * 100 + k)
+                    steps.extend(sess.steps)
+                    if sess.error is not None:
+                        return None, ("abort", type(sess.error).__name__, str(sess.error)[:200]), reordered, steps
+                    driver.apply_to_model(sess)
+                    model.end_session()
+                    obs = observe.Obs(world, model)
+                    oracles.align_model(world, model, obs, "C09")
+                    reordered = reordered or obs.reordered
+            else:
+                sess = driver.run_session(world, model, sdesc, "C09", si, gen_cb=gen_cb, check_shape=shape)
+                if sdesc is None:
+                    scenario["sessions"].append(sess.desc)
+                steps.extend(sess.steps)
+                stats["ops"] += len(sess.desc["ops"]) if not sequential else 0
+                if sess.error is not None:
+                    return None, ("abort", type(sess.error).__name__, str(sess.error)[:200]), reordered, steps
+                driver.apply_to_model(sess)
+                model.end_session()
+                obs = observe.Obs(world, model)
+                oracles.align_model(world, model, obs, "C09")
+                reordered = reordered or obs.reordered
+        return canon.dump(world, strip_temp=True, with_addresses=False), None, reordered, steps
+
+    try:
+        n = scenario.get("plan", {}).get("nsessions", len(scenario["sessions"])) if streams else len(scenario["sessions"])
+        da, ea, ra, sa = play(n, False)
+        scenario["plan"] = {"nsessions": len(scenario["sessions"])}
+        meta["interleavings"] = [core.digest(sa)]
+        last_ops = scenario["sessions"][-1]["ops"] if scenario["sessions"] else []
+        stats["last_session_ops"] += len(last_ops)
+        stats["executions"] += 1
+        if len(last_ops) >= 1:
+            db, eb, rb, sb = play(n, True)
+            stats["executions"] += 1
+            sig_r = {"layout_reordered": bool(ra or rb)}
+            if ea and not eb:
+                raise core.Violation("C09", "batch-only-abort", {"batch": ea}, {"exc": ea[1], **sig_r})
+            if eb and not ea:
+                raise core.Violation("C09", "seq-only-abort", {"sequential": eb}, {"exc": eb[1], **sig_r})
+            if not ea and da != db:
+                d = canon.first_diff(da, db)
+                raise core.Violation("C09", "batch-vs-seq-diff", {"first_difference": d}, {"part": canon.part_of(d), **sig_r})
+            if ea:
+                stats["both_aborted"] += 1
+        verdict = core.result_ok(dict(stats))
+    except core.Violation as v:
+        verdict = core.result_violation(v, dict(stats))
+    except core.Rejected as e:
+        verdict = {"verdict": core.Verdict.REJECTED, "why": str(e), "stats": dict(stats)}
+    except core.Desync as e:
+        verdict = {"verdict": core.Verdict.DESYNC, "why": str(e)[:500], "stats": dict(stats)}
+    meta["sdig"] = core.digest([scenario["module"], scenario["sessions"]])
+    meta["nontrivial"] = stats["last_session_ops"] >= 2
+    verdict["meta"] = meta
+    return verdict
 
 
 def execute_c05(scenario, params, streams=None):
@@ -240,6 +352,7 @@ def execute_generic(prop, scenario, params, streams=None):
                 if dv.prop == prop:
                     raise dv
             interleavings.append(core.digest(sess.steps))
+            stats["engine_steps"] += len(sess.steps)
         verdict = core.result_ok(dict(stats))
     except core.Violation as v:
         verdict = core.result_violation(v, dict(stats))
